@@ -115,6 +115,7 @@ func (w *webSocketClient) handleErr(err error) {
 }
 
 func (w *webSocketClient) listenWebSocket() {
+	defer verifYield("reader.exit")
 	defer verifRecover()
 	for {
 		verifYield("reader.loop")
